@@ -1,7 +1,10 @@
 package main
 
 import (
+	"fmt"
 	"go/token"
+	"sort"
+	"strings"
 	"go/types"
 
 	"golang.org/x/tools/go/ssa"
@@ -13,6 +16,7 @@ type LockState struct {
 	writer  *G
 	held    bool
 	readers int
+	pending map[*G]bool // writers blocked in Lock: like sync.RWMutex, they exclude new readers
 }
 
 type waitOp struct {
@@ -295,11 +299,13 @@ func (ex *Exec) doRecv(g *G, ch *ChanObj) (Value, bool) {
 }
 
 func (ex *Exec) chanSend(g *G, fr *Frame, x *ssa.Send) {
-	if ex.preemptPoint(g) {
-		return
-	}
 	ch := ex.get(fr, x.Chan).(ChanV).C
 	v := ex.get(fr, x.X)
+	// an operation that is about to block hands control to the scheduler anyway (a free choice among the
+	// runnable goroutines): offering a counted preemption before it would only duplicate schedules
+	if ch != nil && ex.chanReady(g, ch, true) && ex.preemptPoint(g) {
+		return
+	}
 	if ch != nil && ex.chanReady(g, ch, true) {
 		if ex.doSend(g, ch, v) {
 			fr.ip++
@@ -316,10 +322,10 @@ func (ex *Exec) chanSend(g *G, fr *Frame, x *ssa.Send) {
 }
 
 func (ex *Exec) chanRecv(g *G, fr *Frame, x *ssa.UnOp, cv ChanV) {
-	if ex.preemptPoint(g) {
+	ch := cv.C
+	if ch != nil && ex.chanReady(g, ch, false) && ex.preemptPoint(g) {
 		return
 	}
-	ch := cv.C
 	setRes := func(v Value, ok bool) {
 		if x.CommaOk {
 			ex.set(fr, x, TupleV{v, ex.ts.Bool(ok)})
@@ -444,6 +450,51 @@ func (ex *Exec) lockOf(p Ptr) *LockState {
 	return l
 }
 
+// lockSite names the static acquisition site of the lock call being executed: the call instruction and the
+// call instruction of its caller.
+func (ex *Exec) lockSite(g *G) string {
+	s := fmt.Sprintf("%p", ex.curInstr)
+	if g.top != nil && g.top.caller != nil {
+		c := g.top.caller
+		if c.ip < len(c.block.Instrs) {
+			s += fmt.Sprintf("/%p", c.block.Instrs[c.ip])
+		}
+	}
+	return s
+}
+
+// preemptAtLock is preemptPoint for lock acquisitions, with the optional per-site cap.
+func (ex *Exec) preemptAtLock(g *G) bool {
+	if k := ex.cfg.PreemptSiteK; k > 0 && !g.resumed && len(ex.gs) > 1 && ex.switches < ex.cfg.MaxSwitches {
+		var hs []string
+		seen := map[string]bool{}
+		for _, s := range g.held {
+			if !seen[s] {
+				seen[s] = true
+				hs = append(hs, s)
+			}
+		}
+		sort.Strings(hs)
+		key := fmt.Sprintf("%d|%s|%s", g.id, ex.lockSite(g), strings.Join(hs, ","))
+		if ex.siteCount[key] >= k {
+			return false
+		}
+		ex.siteCount[key]++
+	}
+	return ex.preemptPoint(g)
+}
+
+func (ex *Exec) mutexFree(p Ptr, write bool) bool {
+	if p.C == nil {
+		return true
+	}
+	l := ex.lockOf(p)
+	if write {
+		return !l.held && l.readers == 0
+	}
+	return !l.held && len(l.pending) == 0
+}
+
 // returns true when the operation completed (caller returns result), false when g blocked/yielded
 // and the call instruction must be re-executed.
 func (ex *Exec) mutexLock(g *G, p Ptr, write bool) bool {
@@ -456,10 +507,17 @@ func (ex *Exec) mutexLock(g *G, p Ptr, write bool) bool {
 		if write {
 			return !l.held && l.readers == 0
 		}
-		return !l.held
+		return !l.held && len(l.pending) == 0
 	}
 	if free() {
+		if ex.cfg.PreemptSiteK > 0 {
+			if g.held == nil {
+				g.held = map[Ptr]string{}
+			}
+			g.held[p] = ex.lockSite(g)
+		}
 		if write {
+			delete(l.pending, g)
 			l.held = true
 			l.writer = g
 		} else {
@@ -467,12 +525,25 @@ func (ex *Exec) mutexLock(g *G, p Ptr, write bool) bool {
 		}
 		return true
 	}
+	if write {
+		if l.pending == nil {
+			l.pending = map[*G]bool{}
+		}
+		l.pending[g] = true
+	}
 	ex.block(g, "mutex", free, nil)
 	return false
 }
 
 func (ex *Exec) mutexUnlock(g *G, p Ptr, write bool) {
 	l := ex.lockOf(p)
+	if _, ok := g.held[p]; ok {
+		delete(g.held, p)
+	} else {
+		for _, o := range ex.gs {
+			delete(o.held, p)
+		}
+	}
 	if write {
 		if !l.held {
 			ex.goPanic(g, "sync: unlock of unlocked mutex", nil)
